@@ -110,7 +110,7 @@ def handleRegion (circular : Bool) (L : Int) (rec : BioRecord) (j : Json) : R Js
                ("expected_seq", Json.str (String.ofList (expectedSeq L rd rec.seq))),
                ("region_len", toJson (regionLen L rd)),
                ("images", jArr images),
-               ("scope", toJson (wfInput rd rec && consistent rd rec)),
+               ("scope", toJson (wfInput rd rec && consistent rd rec && regionFeatureOK rd rec && writable rd rec)),
                ("scope_wf", toJson (wfInput rd rec)),
                ("kf_prepeptide_cut", toJson (prepeptideCut L rd rec.features)),
                ("kf_equal_areas", toJson (equalAreas rd)),
